@@ -394,7 +394,11 @@ func buildPopulation(sc Scenario, opts *neat.Options) (*genetics.Population, err
 		}
 		return pop, nil
 	default:
-		pop, err := genetics.NewPopulation(sc.Start.Build(), opts)
+		start := sc.Start.Build()
+		if sharedStartGenome != nil {
+			start = sharedStartGenome
+		}
+		pop, err := genetics.NewPopulation(start, opts)
 		if err != nil {
 			return nil, fmt.Errorf("NewPopulation: %v", err)
 		}
@@ -415,6 +419,9 @@ func overwriteExported(dst, src *neat.Options) {
 // preparedExecutor, when set, is handed out by the next newExecutor call for the sequential executor (C17: an executor object
 // that served unrelated work before the run started)
 var preparedExecutor genetics.PopulationEpochExecutor
+
+// sharedStartGenome, when set, is the genome object every spawning constructor call starts from (C17: two runs from one object)
+var sharedStartGenome *genetics.Genome
 
 func newExecutor(opts *neat.Options) genetics.PopulationEpochExecutor {
 	if preparedExecutor != nil && opts.EpochExecutorType != neat.EpochExecutorTypeParallel {
